@@ -167,13 +167,13 @@ structure Hit where
   data : Bytes
   clean : Bool
   size : Int
-deriving Repr
+deriving Repr, DecidableEq
 
 inductive GetOut where
   | hit (h : Hit)
   | miss
   | err (c : Code)
-deriving Repr
+deriving Repr, DecidableEq
 
 /-- a scripted answer of the proxy back end to `Get` -/
 inductive ProxyGet where
